@@ -4,7 +4,7 @@ from vlib.core import hx, run_lines
 
 MODULES = ["TLVerif.Props.C04"]
 THEOREMS = ["TLVerif.Props.C04." + t for t in [
-    "read_tl1_sets_tl2masks", "prim_tl1_tl2_tl1", "prim_negzero_lost", "tl1_tl2_tl1_partial", "tl1_tl2_tl1_fails_at"]]
+    "read_tl1_sets_tl2masks", "prim_tl1_tl2_tl1", "prim_negzero_lost", "tl1_tl2_tl1_partial", "tl1_tl2_tl1_fails_at", "conversion_fails"]]
 
 KNOWN_KEY = "codec.x2 cases 33 cases.testDictAny 1 db4d2b2501000000000000000000008007000000"
 
